@@ -197,6 +197,21 @@ CLAIMED = {
 }
 
 # clauses added while building (DESIGN.md section 11.2), appended to the level text
+ADDENDA3 = {'C01': 'Seventh batch: the gate hands out the table entry of exactly the requested name (no alias, no re-bound name).',
+    'C02': "Seventh batch: attribute routing - no setting of a registry copy is taken from another setting's attribute (verify_all_recipients).", 'C03': 'Seventh batch: bit sizes of curves / moduli become octets by (bits + 7) // 8; no member is removed from a header object; verify() refuses only on exact lengths; header codec.',
+    'C04': 'Seventh batch: no member is removed from a header object (R04.14); octet-length lint (R04.15, P-521 coordinates are 66 octets).',
+    'C05': "Seventh batch: every raise reachable from a gate is UnsupportedAlgorithmError; the algorithm object is never carried in a field of a token / message object; no gate re-binds the name; the caller's registry is re-bound only under `registry is None` / `if algorithms`.", 'C07': 'Seventh batch: the header text is json.dumps of the object without hooks and nothing else (no hand-written fast path).',
+    'C08': 'Seventh batch: bounded-inflate rules as the raw-DEFLATE framing clause.',
+    'C09': "Seventh batch: operation names per primitive (verify asks for 'verify'); no member removed from a header.", 'C10': 'Seventh batch: exception flow of validate() and every validate_<claim>: only JoseError subclasses escape.',
+    'C11': 'Seventh batch: a JWK member is validated whenever present (membership conditions only); import-side DER dispatch (private parser with password first); as_pem / as_der ask for their encoding; rsa_recover_prime_factors / CRT helper argument order.',
+    'C12': 'Seventh batch: the header encoder has no default= / cls= hook and is_jwk accepts dicts only (a Key object cannot be serialised into a header).',
+    'C15': 'Seventh batch: attribute routing (strict_check_header / header_registry of a derived registry); further optional well-typed header parameters are admitted, a registered b64 in an RFC 7515 / 7516 table is not.',
+    'C16': 'Seventh batch: mypy attr-defined diagnostics in consume-reachable code are AttributeError witnesses; hmac.compare_digest raises TypeError unless both arguments are bytes-like by type.',
+    'C18': 'Seventh batch: generate_cek / generate_iv take no size from their caller.',
+    'C19': 'Seventh batch: json.loads of the codec has no hooks and JSON is parsed in one place; to_bytes encodes with (charset, errors).',
+    'C20': 'Seventh batch: shared classes are closed over objects kept in fields of shared objects or at module level.'}
+ENGINE_NOTE = ' Engine: calls to functions that are not in the reference function list (new helpers, extracted or introduced) are inlined exactly before any rule runs (jv/inline.py).'
+
 ADDENDA2 = {'C01': 'Later additions: per-instance containers on the message classes; the signature handed to the primitive is the received octet string itself; the header tables as the crit defence; PSS / PKCS1 primitive call table and consuming-side key selection (no kid written into a received header) as clauses. Generic routing rule: between functions that share a parameter name the property speaks about, the value is handed on as given (frozen exception table) and the parameter is not re-bound except by to_bytes / to_str of itself.',
     'C02': 'Later additions: 1PU / ES shared-secret terms, key-wrap primitive shapes, whole-key dir, and zip honoured from the protected position only, as clauses. Generic routing rule: between functions that share a parameter name the property speaks about, the value is handed on as given (frozen exception table) and the parameter is not re-bound except by to_bytes / to_str of itself.',
     'C03': 'Later additions: algorithm -> key-type table, per-instance registry, set-member key picking and JSON payload extraction (empty payload included) as clauses. Generic routing rule: between functions that share a parameter name the property speaks about, the value is handed on as given (frozen exception table) and the parameter is not re-bound except by to_bytes / to_str of itself.',
@@ -260,7 +275,7 @@ def main() -> None:
                 "evidence_file": f"/verif/evidence/{pid}.json",
                 "replay_cmd_template": f"{PY} -m jv replay {{path}}",
                 "engine": "jv",
-                "level_claimed": {"category": "other", "text": text + (" " + ADDENDA[pid] if pid in ADDENDA else "") + (" " + ADDENDA2[pid] if pid in ADDENDA2 else ""), "design_ref": f"DESIGN.md section {ref} and 11.2"},
+                "level_claimed": {"category": "other", "text": text + (" " + ADDENDA[pid] if pid in ADDENDA else "") + (" " + ADDENDA2[pid] if pid in ADDENDA2 else "") + (" " + ADDENDA3[pid] if pid in ADDENDA3 else "") + ENGINE_NOTE, "design_ref": f"DESIGN.md section {ref} and 11.2"},
                 "level_note": note,
                 "technique": tech,
             })
